@@ -10,9 +10,10 @@
              indexes with the same content equal terms.
     Lookup   [findNode] of tree.go on the derivatives of the pattern set: static
              byte first, then the single wildcard, then the free wildcard; the flag
-             of a failed node decides whether the search may go on.  [lookup true]
-             is the code as it is (finding C02-F1: a failed free-wildcard node
-             consults the parent node's flag), [lookup false] the repaired code.
+             of a failed node decides whether the search may go on.  [lookup false]
+             is the code as it is now (after the fix: commit e897fef for finding
+             C02-F1: a failed free-wildcard node consults its own flag),
+             [lookup true] the code of the pinned commit (the parent node's flag).
     Ops      [AddRuleSet] / [UpdateRuleSet] / [DeleteRuleSet], transcribed:
              diff by SameAs / EqualTo, delete-then-add on a clone, same-source
              constraint per node, swap only on success.
@@ -55,11 +56,23 @@ Definition rule_eqb (a b : rule) : bool :=
 Definition stamp (s : nat) (ds : list rdef) : list rule :=
   map (fun d => {| r_src := s; r_def := d |}) ds.
 
-(** a route: one path expression of a rule (rule_impl.go routeImpl) *)
-Record route := { rt_rule : rule; rt_path : str }.
+(** a route: one path expression of a rule (rule_impl.go routeImpl); [rt_idx] is
+    its position in the rule's list of paths (two entries of that list are two
+    route objects, also when they spell the same path) *)
+Record route := { rt_rule : rule; rt_idx : nat; rt_path : str }.
 
 Definition routes_of (r : rule) : list route :=
-  map (fun e => {| rt_rule := r; rt_path := e |}) (d_paths (r_def r)).
+  let ps := d_paths (r_def r) in
+  map (fun ie => {| rt_rule := r; rt_idx := fst ie; rt_path := snd ie |}) (combine (seq 0 (length ps)) ps).
+
+Definition route_eqb (a b : route) : bool :=
+  rule_eqb (rt_rule a) (rt_rule b) && Nat.eqb (rt_idx a) (rt_idx b) && str_eqb (rt_path a) (rt_path b).
+
+(** repairs of this property's findings that the code may contain (fixes/C06-F3.diff,
+    C06-F4.diff, C06-F5.diff); all false = the code without them *)
+Record fixes := { fix_F3 : bool; fix_F4 : bool; fix_F5 : bool }.
+Definition no_fix : fixes := {| fix_F3 := false; fix_F4 := false; fix_F5 := false |}.
+Definition all_fix : fixes := {| fix_F3 := true; fix_F4 := true; fix_F5 := true |}.
 
 Definition rt_bt (v : route) : bool := d_bt (r_def (rt_rule v)).
 Definition rt_src (v : route) : nat := r_src (rt_rule v).
@@ -333,17 +346,23 @@ Definition m_add1 (d : db) (v : route) : db + err :=
   | Some p => match add d p v (rt_bt v) with Some d' => inl d' | None => inr EConstraint end
   end.
 
-Definition m_del1 (d : db) (r : rule) (v : route) : db + err :=
+(** which values a Delete for route [v] of rule [r] removes: every route of a rule
+    that is SameAs [r]; with fixes/C06-F4.diff the very route *)
+Definition del_matcher (fx : fixes) (r : rule) (v : route) (x : route) : bool :=
+  if fix_F4 fx then route_eqb x v else sameas (rt_rule x) r.
+
+Definition m_del1 (fx : fixes) (d : db) (r : rule) (v : route) : db + err :=
   match pat_of (rt_path v) with
   | None => inr EDelete
-  | Some p => match delete d p (fun x => sameas (rt_rule x) r) with Some d' => inl d' | None => inr EDelete end
+  | Some p => match delete d p (del_matcher fx r v) with Some d' => inl d' | None => inr EDelete end
   end.
 
 Definition repo := grepo db.
 Definition empty : repo := {| known := []; index := [] |}.
-Definition step : repo -> op -> repo * option err := gstep db m_add1 m_del1.
-Definition run_from (st : repo) (ops : list op) : repo := fold_left (fun st o => fst (step st o)) ops st.
-Definition run (ops : list op) : repo := run_from empty ops.
+Definition step (fx : fixes) : repo -> op -> repo * option err := gstep db m_add1 (m_del1 fx).
+Definition run_from (fx : fixes) (st : repo) (ops : list op) : repo :=
+  fold_left (fun st o => fst (step fx st o)) ops st.
+Definition run (fx : fixes) (ops : list op) : repo := run_from fx empty ops.
 
 (** the conditions of a route in this development: the accepted methods
     (route_matcher.go methodMatcher; an empty list accepts every method) *)
